@@ -381,8 +381,10 @@ TickF(st) == [st EXCEPT !.time = st.time + 1]
 UpdateFinF(cfg, st)   == CompStateF(cfg, FinF(cfg, st))
 UpdateReadyF(cfg, st) == CompStateF(cfg, ReadyF(cfg, st))
 UpdateF(cfg, st) == PertF(cfg, UpdateReadyF(cfg, UnplaceF(cfg, UpdateFinF(cfg, st))))
-StartPhaseF(cfg, st) == CompStateF(cfg, StartF(cfg, st))
+\* (a fix commit made an absence step dead time for starts too, unless auto tasks run in it)
+StartPhaseF(cfg, opts, st) ==
+  IF IsAbsenceStep(opts, st.time) /\ ~opts.autoAbs THEN st ELSE CompStateF(cfg, StartF(cfg, st))
 \* everything between the "updated" event of a step and the "recorded" event
 WorkF(cfg, opts, st) ==
-  RecordF(cfg, opts, PerformF(cfg, opts, StartPhaseF(cfg, AllocF(cfg, opts, PresenceF(cfg, opts, st)))))
+  RecordF(cfg, opts, PerformF(cfg, opts, StartPhaseF(cfg, opts, AllocF(cfg, opts, PresenceF(cfg, opts, st)))))
 =============================================================================
